@@ -348,6 +348,28 @@ fn document_level(tier: &str, seed: u64, s: &mut Search) {
 }
 
 pub fn search(tier: &str, seed: u64, s: &mut Search) {
+    // feDropShadow with no blur: the shadow has exactly the flood colour (times flood-opacity), in either working space
+    {
+        let mut rng = Rng::new(seed ^ 0x5EA7C16D);
+        let o = crate::corpus::opts_for(None);
+        for k in 0..(if tier == "thorough" { 200 } else { 24 }) {
+            let ci = if k % 2 == 0 { "sRGB" } else { "linearRGB" };
+            // the 8-bit linear round trip is coarse for dark channels: only bright ones are compared there
+            let (lo, span) = if ci == "sRGB" { (0, 256) } else { (96, 160) };
+            let (r, g, b) = ((lo + rng.below(span)) as u8, (lo + rng.below(span)) as u8, (lo + rng.below(span)) as u8);
+            let svg = format!(r##"<svg xmlns="http://www.w3.org/2000/svg" width="60" height="60"><filter id="f" filterUnits="userSpaceOnUse" x="0" y="0" width="60" height="60" color-interpolation-filters="{ci}"><feDropShadow dx="20" dy="20" stdDeviation="0" flood-color="rgb({r},{g},{b})"/></filter><rect x="5" y="5" width="25" height="25" fill="white" filter="url(#f)"/></svg>"##);
+            let Ok(Ok(t)) = crate::pan::catch(|| usvg::Tree::from_str(&svg, &o)) else { continue };
+            let Ok(Some(pm)) = crate::pan::catch(|| crate::rend::render(&t, 60, 60, tiny_skia::Transform::identity())) else { continue };
+            s.case("drop-shadow-colour", &svg, true);
+            // (40, 40) lies in the shadow only
+            let p = &pm.data()[((40 * 60 + 40) * 4) as usize..((40 * 60 + 40) * 4 + 4) as usize];
+            let tol = if ci == "sRGB" { 1 } else { 3 };
+            if p[3] != 255 || (p[0] as i32 - r as i32).abs() > tol || (p[1] as i32 - g as i32).abs() > tol || (p[2] as i32 - b as i32).abs() > tol {
+                s.finding(&format!("oracle:document:drop-shadow-colour:{}", ci), &format!("the unblurred shadow is {:?}, flood-color is rgb({},{},{})", p, r, g, b), &svg);
+            }
+        }
+    }
+
     document_level(tier, seed, s);
     let mut rng = Rng::new(seed ^ 0x5EA7C16);
     let mult = budget_mult();
